@@ -621,3 +621,11 @@ mod test {
         assert_eq!(file, bytes);
     }
 }
+
+#[cfg(mila_verif)]
+pub mod verif_hooks {
+    //! Verification-build access to the private helpers of this module (wrappers only).
+    pub fn compute_flags(spec: &super::AssetSpec) -> (Vec<u8>, usize) {
+        spec.compute_flags()
+    }
+}
